@@ -159,6 +159,31 @@ def gmd(U: np.ndarray,
     return Q, R, P
 
 
+def _eig_hermitian(A: np.ndarray) -> Tuple[np.ndarray, np.ndarray]:
+    """
+    Eigenvalues and eigenvectors of the symmetric (hermitian) matrix `A`.
+
+    Different from `np.linalg.eig`, the eigenvectors are orthonormal also
+    when `A` has repeated eigenvalues. The eigenvectors are scaled as
+    `np.linalg.eig` does (largest component real and positive).
+
+    Parameters
+    ----------
+    A : np.ndarray
+        A symmetric (hermitian) matrix (bi-dimensional numpy array).
+
+    Returns
+    -------
+    np.ndarray, np.ndarray
+        The eigenvalues and the matrix with the eigenvectors as columns.
+    """
+    [D, V] = np.linalg.eigh(A)
+    idx = np.argmax(np.abs(V), axis=0)
+    largest = V[idx, np.arange(V.shape[1])]
+    V = V * (np.conj(largest) / np.abs(largest))
+    return D, V
+
+
 def peig(A: np.ndarray, n: int) -> Tuple[np.ndarray, np.ndarray]:
     """
     Returns a matrix whose columns are the `n` dominant eigenvectors of
@@ -199,7 +224,7 @@ def peig(A: np.ndarray, n: int) -> Tuple[np.ndarray, np.ndarray]:
         raise ValueError("`n` must be lower then the number of columns "
                          "in `A`")
 
-    [D, V] = np.linalg.eig(A)
+    [D, V] = _eig_hermitian(A)
     indexes = np.argsort(D.real)
     indexes = indexes[::-1]
     V = V[:, indexes[0:n]]
@@ -248,7 +273,7 @@ def leig(A: np.ndarray, n: int) -> Tuple[np.ndarray, np.ndarray]:
         raise ValueError("`n` must be lower then the number of columns "
                          "in `A`")
 
-    [D, V] = np.linalg.eig(A)
+    [D, V] = _eig_hermitian(A)
     indexes = np.argsort(D.real)
     V = V[:, indexes[0:n]]
     D = D[indexes[0:n]]
